@@ -1034,6 +1034,53 @@ fn k_hex(sc: &J, r: &R) {
                 set(r, "ne_hash", (a != blake3::Hash::from_bytes(ba)).to_string());
             }
         }
+        "serde" => {
+            // C14: "Conversions through ... serde (sequence form, plus the legacy byte-string form in self-describing
+            // formats) are lossless": a sequence / byte string of exactly 32 bytes is accepted and gives those bytes,
+            // everything else is rejected; serializing gives the 32-element sequence back
+            #[cfg(feature = "serde")]
+            {
+                let b = unhex(sc.s("bytes_hex"));
+                let json = format!("[{}]", b.iter().map(|x| x.to_string()).collect::<Vec<_>>().join(","));
+                match serde_json::from_str::<blake3::Hash>(&json) {
+                    Ok(h) => {
+                        set(r, "json_accepted", "true".into());
+                        set_hex(r, "json_out_hex", h.as_bytes());
+                    }
+                    Err(_) => set(r, "json_accepted", "false".into()),
+                }
+                // CBOR array of small ints and CBOR byte string (legacy form)
+                let mut arr = Vec::<u8>::new();
+                ciborium::into_writer(&b.iter().map(|x| *x as u64).collect::<Vec<u64>>(), &mut arr).unwrap();
+                match ciborium::from_reader::<blake3::Hash, _>(&arr[..]) {
+                    Ok(h) => {
+                        set(r, "cbor_accepted", "true".into());
+                        set_hex(r, "cbor_out_hex", h.as_bytes());
+                    }
+                    Err(_) => set(r, "cbor_accepted", "false".into()),
+                }
+                let mut bs = Vec::<u8>::new();
+                ciborium::into_writer(&ciborium::Value::Bytes(b.clone()), &mut bs).unwrap();
+                match ciborium::from_reader::<blake3::Hash, _>(&bs[..]) {
+                    Ok(h) => {
+                        set(r, "bytes_accepted", "true".into());
+                        set_hex(r, "bytes_out_hex", h.as_bytes());
+                    }
+                    Err(_) => set(r, "bytes_accepted", "false".into()),
+                }
+                if b.len() == 32 {
+                    let mut a32 = [0u8; 32];
+                    a32.copy_from_slice(&b);
+                    let h = blake3::Hash::from_bytes(a32);
+                    set(r, "to_json", esc(&serde_json::to_string(&h).unwrap()));
+                }
+                set(r, "skipped", "false".into());
+            }
+            #[cfg(not(feature = "serde"))]
+            {
+                set(r, "skipped", "true".into());
+            }
+        }
         o => panic!("driver: unknown hex op {}", o),
     }
 }
